@@ -673,6 +673,16 @@ pub fn c05(tier: &str, flavor: Flavor) -> Spec {
             jobs.push(job(single(&cfg, flavor, ops), &[1], "c05-dead-on-arrival"));
         }
     }
+    // one client gives a resident key a TTL (filed into the expiry index on the client's thread)
+    // while another lets the clock pass the deadline of its bucket-mates: the sweep of that bucket
+    // and the filing race; whatever the order, the key is reclaimed in the end
+    for (ttl, jump) in [(300u64, 1500u64), (300, 2500), (900, 1500)] {
+        for t0 in [vec![ins(1, 1, ttl)], vec![ins(1, 1, ttl), ins(3, 1, ttl)], vec![Op::Pres { k: 2, c: 1 }, ins(1, 1, ttl)]] {
+            let mut p = conc(&Cfg::default(), flavor, &[ins(1, 1, 0), ins(2, 1, 300), ins(3, 1, 0)], vec![t0.clone(), vec![Op::Adv { ms: jump }]]);
+            p.post = vec![Op::Settle, Op::Adv { ms: 1000 }, Op::Settle, Op::Adv { ms: 1000 }, Op::Settle, Op::Adv { ms: 1000 }, Op::Settle, Op::Get { k: 1 }];
+            jobs.push(job(p, &[2], "c05-filing-vs-sweep"));
+        }
+    }
     jobs.extend(tick_race_jobs(flavor, quick, "c05-tick-race"));
     // a lookup guard (on the expired entry itself or on a neighbour in the same shard) held while
     // the sweep for that entry is due: the sweep waits for the guard, the entry is reclaimed
@@ -716,7 +726,7 @@ pub fn c05(tier: &str, flavor: Flavor) -> Spec {
         oracle: o_c05,
         interesting: |_, t| has_expiry(t),
         rule: format!(
-            "every history of depth {} over {} symbols (I(k,ttl) k in 1..2, R(k), I(1,no ttl), A(0.25s), A(1s)) containing a TTL insert, x {} (cleanup interval incl. the 2 s default, clock phase) settings, followed by 7 x 1 s of idle time; quiescence after every step (the processor is never starved), all choices at bound 0; oracle: physically reclaimed, un-charged and handed to on_evict exactly once with the charged cost by deadline + 1 s + interval; never evicted before the deadline; plus entries whose TTL runs out before the processor applies the buffered insert (dead on arrival: 0.3 s TTL with 0.4-1.5 s of lag, 1 ns / 999999 ns TTLs), plus the odd-charges family (costs -5 / -1 / 0 with a Coster answering 0 or -3, depth 3, both keys re-inserted afterwards) and the families named in DESIGN 11.5; non-trivial = an expiry was reclaimed",
+            "every history of depth {} over {} symbols (I(k,ttl) k in 1..2, R(k), I(1,no ttl), A(0.25s), A(1s)) containing a TTL insert, x {} (cleanup interval incl. the 2 s default, clock phase) settings, followed by 7 x 1 s of idle time; quiescence after every step (the processor is never starved), all choices at bound 0; oracle: physically reclaimed, un-charged and handed to on_evict exactly once with the charged cost by deadline + 1 s + interval; never evicted before the deadline; plus c05-filing-vs-sweep (one client gives a resident key a TTL while another lets the clock pass the deadline of its bucket-mates; bound 2), plus entries whose TTL runs out before the processor applies the buffered insert (dead on arrival: 0.3 s TTL with 0.4-1.5 s of lag, 1 ns / 999999 ns TTLs), plus the odd-charges family (costs -5 / -1 / 0 with a Coster answering 0 or -3, depth 3, both keys re-inserted afterwards) and the families named in DESIGN 11.5; non-trivial = an expiry was reclaimed",
             depth,
             alpha.len(),
             configs.len()
@@ -1254,13 +1264,28 @@ pub fn c01(tier: &str, flavor: Flavor) -> Spec {
             jobs.push(job(single(&ccfg, flavor, settled(&s)), &[0], "c01-coster"));
         }
     }
+    // keys sharing an index hash (index = k % 2, conflict = k + 1: 2, 4 and 6 collide), buffered
+    // work for one of them while another is inserted / removed, then the cache is filled: an entry
+    // that is resident is charged (one that is not can never be evicted and escapes the bound)
+    {
+        let kcfg = Cfg { keymode: KeyMode::Collide { m: 2 }, max_cost: 4, ..Cfg::default() };
+        let ka = [ins(2, 2, 0), ins(4, 2, 0), Op::Rem { k: 2 }, Op::Rem { k: 4 }, Op::Pres { k: 4, c: 3 }, ins(3, 2, 0), Op::Settle];
+        for s in sequences(&ka, if quick { 4 } else { 5 }) {
+            if !s.iter().any(|o| matches!(o, Op::Rem { .. })) || !s.iter().any(|o| matches!(o, Op::Ins { .. })) {
+                continue;
+            }
+            let mut ops = s.clone();
+            ops.extend([Op::Settle, ins(5, 1, 0), ins(7, 1, 0), ins(9, 2, 0), Op::Settle]);
+            jobs.push(job(single(&kcfg, flavor, ops), &[1], "c01-colliding"));
+        }
+    }
     Spec {
         id: "C01",
         jobs,
         oracle: o_c01,
         interesting: |_, t| !t.evict_rounds.is_empty() || t.ledger.iter().any(|e| e.kind == CbKind::Reject),
         rule: format!(
-            "policy state observed after EVERY policy operation (under its lock). E-seq: every unsettled history of depth {} over 24 symbols (I(k,c) k in 1..3 c in 0/2/4/7, P(k,5), R(k), U(3), U(10), X, G, S), both ignore_internal_cost settings, max_cost 6; boundary costs 1 / i64::MAX-56 / i64::MAX; E-conc: two clients x up to {} operations from {{I(1,4), I(2,4), I(1,6), U(3), X, R(1)}} x 3 pre-states at preemption bound 2; non-trivial = an eviction round or a rejection happened",
+            "policy state observed after EVERY policy operation (under its lock). Families beyond the ones spelled out here (popular, tick-race, zero-charge, coster, colliding keys with buffered work = c01-colliding) are described in DESIGN 11.5. E-seq: every unsettled history of depth {} over 24 symbols (I(k,c) k in 1..3 c in 0/2/4/7, P(k,5), R(k), U(3), U(10), X, G, S), both ignore_internal_cost settings, max_cost 6; boundary costs 1 / i64::MAX-56 / i64::MAX; E-conc: two clients x up to {} operations from {{I(1,4), I(2,4), I(1,6), U(3), X, R(1)}} x 3 pre-states at preemption bound 2; non-trivial = an eviction round or a rejection happened",
             depth,
             if quick { 1 } else { 2 }
         ),
@@ -1322,13 +1347,21 @@ pub fn c06(tier: &str, flavor: Flavor) -> Spec {
             jobs.push(job(p, &[0], "c06-small-buffer"));
         }
     }
+    // a client keeps a lookup / get_mut guard alive (across a yield) on the shard of a resident
+    // while the processor admits a newcomer that needs that resident as its victim, removes or
+    // re-inserts it: the processor waits for the shard, nobody is left resident and un-charged
+    for guard in [vec![Op::GetYield { k: 1 }], vec![Op::GetYield { k: 2 }], vec![Op::GetYield { k: 1 }, Op::GetYield { k: 2 }], vec![Op::GetYield { k: 257 }]] {
+        for other in [vec![ins(3, 1, 0)], vec![ins(3, 2, 0)], vec![ins(3, 1, 0), ins(4, 1, 0)], vec![Op::Rem { k: 1 }, ins(3, 1, 0)], vec![ins(1, 2, 0), ins(3, 1, 0)]] {
+            jobs.push(job(conc(&cfg, flavor, &[ins(1, 1, 0), ins(2, 1, 0)], vec![other.clone(), guard.clone()]), &[2], "c06-guard-held"));
+        }
+    }
     Spec {
         id: "C06",
         jobs,
         oracle: o_c06,
         interesting: |_, t| !t.evict_rounds.is_empty() || t.ledger.iter().any(|e| e.kind != CbKind::Exit),
         rule: format!(
-            "capacity 2, cost-1 keys. E-conc: 3 pre-states x two clients x all bodies of <= {} operations from {{I(1), I(2), I(3), R(1), X}} at preemption bound 2, plus 6 named races (clear vs in-flight insert, remove vs eviction, update vs sweep) at bound {}; E-seq: every unsettled history of depth {} over 9 symbols at bound 1; oracle at every quiescent point: resident set == charged set, len() == their number (skipped if any call returned an error); non-trivial = eviction / rejection / expiry happened",
+            "capacity 2, cost-1 keys. Plus c06-guard-held (a client keeps a lookup guard alive across a yield on the shard of the resident the processor needs as victim / removes / updates; bound 2), c06-popular, c06-small-buffer (DESIGN 11.5). E-conc: 3 pre-states x two clients x all bodies of <= {} operations from {{I(1), I(2), I(3), R(1), X}} at preemption bound 2, plus 6 named races (clear vs in-flight insert, remove vs eviction, update vs sweep) at bound {}; E-seq: every unsettled history of depth {} over 9 symbols at bound 1; oracle at every quiescent point: resident set == charged set, len() == their number (skipped if any call returned an error); non-trivial = eviction / rejection / expiry happened",
             if quick { 1 } else { 2 },
             if quick { 2 } else { 3 },
             if quick { 4 } else { 5 }
@@ -1560,6 +1593,17 @@ pub fn c02(tier: &str, flavor: Flavor) -> Spec {
             ops.push(Op::Get { k: 1 });
             jobs.push(job(single(&cfg, flavor, ops), &[2], "c02-rollback"));
         }
+        // ... and a remove is not undone by one: several inserts of an absent key are buffered as
+        // new items, the processor applies some of them, the client removes the key, the rest follows
+        let a5 = [ins(1, 1, 0), Op::Rem { k: 1 }, Op::Get { k: 1 }, Op::Pres { k: 1, c: 1 }];
+        for s in sequences(&a5, if quick { 4 } else { 5 }) {
+            if s.iter().filter(|o| matches!(o, Op::Ins { .. })).count() < 2 || !s.contains(&Op::Rem { k: 1 }) {
+                continue;
+            }
+            let mut ops = s.clone();
+            ops.extend([Op::Wait, Op::Get { k: 1 }, Op::Settle, Op::Get { k: 1 }]);
+            jobs.push(job(single(&cfg, flavor, ops), &[2], "c02-remove-not-undone"));
+        }
     }
     // fully settled histories: exactly the last value written
     {
@@ -1631,7 +1675,7 @@ pub fn c02(tier: &str, flavor: Flavor) -> Spec {
         oracle: o_c02,
         interesting: |_, t| t.recs.iter().any(|r| matches!(r.res, Res::Val(Some(_)))),
         rule: format!(
-            "keys 1 and 257 (same shard). E-seq: every history of depth {} over 13 symbols (I(k), I(k,1s), M(k), R(k), G(k), X, A(1s), S) containing a lookup, at max_cost 100 and 1 (forced evictions); every fully settled history of depth {} with exact-map comparison; E-conc: two writer threads x bodies of <= {} operations from {{I(1), I(257), M(1), R(1), X}} + a reader doing two lookups, 2 pre-states, preemption bound {}; 4 named programs at bound 2; settled histories on two keys forced onto one index hash with TTLs and idle time (expired, unswept owner); two writers of one resident key under a 'newer wins' validator at bound 2 (the value never moves back); clear() on residents charged nothing in total (cost 0 / +3 and -3, internal cost ignored), settled and unsettled; oracle on the recorded call/return history (value provenance, staleness after remove/clear + quiescence, no roll-back of in-place writes); non-trivial = a lookup returned a value",
+            "keys 1 and 257 (same shard). E-seq: every history of depth {} over 13 symbols (I(k), I(k,1s), M(k), R(k), G(k), X, A(1s), S) containing a lookup, at max_cost 100 and 1 (forced evictions); every fully settled history of depth {} with exact-map comparison; E-conc: two writer threads x bodies of <= {} operations from {{I(1), I(257), M(1), R(1), X}} + a reader doing two lookups, 2 pre-states, preemption bound {}; 4 named programs at bound 2; settled histories on two keys forced onto one index hash with TTLs and idle time (expired, unswept owner); two writers of one resident key under a 'newer wins' validator at bound 2 (the value never moves back); several buffered inserts of an absent key with the processor applying some of them, then a remove, wait() and lookups at bound 2 (a remove is not undone by an older buffered insert); clear() on residents charged nothing in total (cost 0 / +3 and -3, internal cost ignored), settled and unsettled; oracle on the recorded call/return history (value provenance, staleness after remove/clear + quiescence, no roll-back of in-place writes); non-trivial = a lookup returned a value",
             if quick { 4 } else { 5 },
             if quick { 3 } else { 4 },
             if quick { 1 } else { 2 },
@@ -1755,6 +1799,14 @@ pub fn c10(tier: &str, flavor: Flavor) -> Spec {
                 a.extend([Op::Wait, Op::Get { k: 1 }, Op::Get { k: 2 }, Op::Get { k: 3 }, Op::Snap]);
                 jobs.push(job(conc(&cfg, flavor, &[], vec![a]), if quick { &[1] } else { &[2] }, "c10-own-clear"));
             }
+        }
+    }
+    // a TTL given to / taken from a resident key (filed in the expiry index under the shard lock, on
+    // the client's thread) or its removal, then the barrier, racing a clear() from another client
+    // (the processor wipes shards and index): everybody returns
+    for a in [vec![ins(2, 1, 1000), Op::Wait, Op::Get { k: 2 }], vec![ins(1, 1, 0), Op::Wait, Op::Get { k: 1 }], vec![Op::Rem { k: 1 }, ins(2, 1, 1000), Op::Wait, Op::Get { k: 2 }]] {
+        for b in [vec![Op::Clear], vec![Op::Clear, Op::Clear]] {
+            jobs.push(job(conc(&Cfg::default(), flavor, &[ins(1, 1, 1000), ins(2, 1, 0)], vec![a.clone(), b.clone()]), &[2], "c10-ttl-refresh-vs-clear"));
         }
     }
     // waits with nothing pending, racing close/clear directly
@@ -1932,6 +1984,16 @@ pub fn c11(tier: &str, flavor: Flavor) -> Spec {
     }
     // every metrics stripe restarts from zero
     jobs.extend(stripe_jobs(flavor, "c11-stripes"));
+    // two clients clearing at the same time (the second call finds the first one's request still
+    // pending): each clear() has taken effect when IT returns - nothing older is served to its
+    // caller, what the caller inserts afterwards stays
+    for a in [vec![Op::Clear, Op::Get { k: 1 }], vec![Op::Clear, ins(7, 1, 0), Op::Wait, Op::Get { k: 7 }], vec![ins(2, 1, 0), Op::Clear, Op::Get { k: 2 }, ins(7, 1, 0)]] {
+        for b in [vec![Op::Clear], vec![Op::Clear, Op::Get { k: 1 }], vec![ins(3, 1, 0), Op::Clear]] {
+            let mut p = conc(&Cfg { metrics: true, ..Cfg::default() }, flavor, &[ins(1, 1, 0)], vec![a.clone(), b.clone()]);
+            p.post = vec![Op::Settle, Op::Get { k: 1 }, Op::Get { k: 7 }, Op::Settle];
+            jobs.push(job(p, if quick { &[1] } else { &[2] }, "c11-two-clears"));
+        }
+    }
     // residents charged nothing in total at the moment of the clear
     jobs.extend(uncharged_clear_jobs(flavor, quick, true, "c11-uncharged-clear"));
     // the popularity of keys looked up before the clear (hits and misses; key hashes 1, 2^63 and
@@ -2711,6 +2773,19 @@ pub fn c20(tier: &str, flavor: Flavor) -> Spec {
             for max_cost in [1i64, 100] {
                 let cfg = Cfg { max_cost, buffer_size, ..Cfg::default() };
                 jobs.push(job(single(&cfg, flavor, wl2.clone()), &[2], "c20-same-shard"));
+            }
+        }
+    }
+    // a TTL given to a resident key (filed in the expiry index under the shard lock, on the client's
+    // thread) or the removal of a TTL entry, racing clear() from another client: every
+    // call completes and the cache keeps working
+    for (buffer_size, buffer_items) in [(1usize, 0usize), (8, 64)] {
+        let cfg = Cfg { buffer_size, buffer_items, ..Cfg::default() };
+        for a in [vec![ins(2, 1, 1000)], vec![Op::Rem { k: 1 }], vec![ins(1, 1, 0), ins(2, 1, 500)]] {
+            for b in [vec![Op::Clear], vec![Op::Clear, ins(1, 1, 300)]] {
+                let mut p = conc(&cfg, flavor, &[ins(1, 1, 1000), ins(2, 1, 0)], vec![a.clone(), b.clone()]);
+                p.post = vec![Op::Settle, Op::Wait, ins(7, 1, 0), Op::Settle];
+                jobs.push(job(p, &[2], "c20-ttl-refresh-vs-clear"));
             }
         }
     }
